@@ -57,7 +57,8 @@ package parse
 //@   ensures[S]  old(z.pos) < z.pos && z.pos <= old(z.pos)+4 && z.pos <= len(z.buf)-1
 
 //@ func Input.Pos
-//@   requires[S] bufInv(z)
+// (no buffer invariant needed: Pos is also called after Restore has given the terminator byte back)
+//@   requires[S] z != nil
 //@   ensures[S]  result == z.pos - z.start
 
 //@ func Input.Rewind
@@ -291,6 +292,8 @@ package parse
 //@ func DecodeURL
 //@   ensures[S]  len(result) <= len(b)
 //@   ensures[F,C16] @frame: sameBytesExcept(ptr(b), ptr(b) + len(b))
+// form encoding: without percent escapes the result is the argument with every '+' turned into a space
+//@   ensures[F,C16] @plus-is-space: old(forall(k, 0, len(b), b[k] != '%')) ==> sameSlice(result, old(b)) && forall(k, 0, len(result), result[k] == ite(old(b[k]) == '+', ' ', old(b[k])))
 
 // the scanner behind DecodeURL (form encoding: '+' is a space) and DataURI (percent escapes only)
 //@ func decodeURL
@@ -298,6 +301,10 @@ package parse
 // decodes in place: nothing outside the argument's bytes is written
 //@   ensures[F,C16] @frame: sameBytesExcept(ptr(b), ptr(b) + len(b))
 //@   loop * invariant[F] sameBytesExcept(ptr(old(b)), ptr(old(b)) + len(old(b))) && ptr(b) == ptr(old(b)) && len(b) <= len(old(b))
+// the plus sign: without percent escapes in the argument the result is the argument itself, byte for byte, except that a '+'
+// becomes a space when (and only when) form encoding was asked for; with plusIsSpace unset nothing at all is written
+//@   ensures[F,C16] @plus: old(forall(k, 0, len(b), b[k] != '%')) ==> sameSlice(result, old(b)) && forall(k, 0, len(result), result[k] == ite(plusIsSpace && old(b[k]) == '+', ' ', old(b[k]))) && (!plusIsSpace ==> sameBytes())
+//@   loop * invariant[F] old(forall(k, 0, len(b), b[k] != '%')) ==> sameSlice(b, old(b)) && forall(k, 0, i, b[k] == ite(plusIsSpace && old(b[k]) == '+', ' ', old(b[k]))) && forall(k, i, len(b), b[k] == old(b[k])) && (!plusIsSpace ==> sameBytes())
 //@   loop * candidate 0 <= i && i <= len(b)
 //@   loop * candidate len(b) <= old(len(b))
 //@   loop * candidate i < j && j <= i + 3
@@ -316,10 +323,19 @@ package parse
 //@   requires[F] @not-the-default: disjoint(dataURI, textMimeBytes)
 //@   loop 1 invariant[F] @own-buffer: (cap(mediatype) == 0 || (disjoint(mediatype, dataURI) && fresh(mediatype))) && sameBytesExcept(0, 0)
 //@   ensures[F,C16] @mediatype: result2 == nil ==> len(result0) > 0 && result0[0] != ';'
+// the payload of a data URI that is not base64 is decoded with percent escapes only: a plus sign stays a plus sign (what the
+// flag means is decodeURL's clause 'plus')
+//@   callsite parse.decodeURL[F,C16] @percent-only: arg1 == false
 //@   loop * candidate 0 <= i && i <= j
 //@   loop * candidate 0 <= j && j <= len(dataURI)
 
 // ---- assumed contracts of standard-library functions (trusted; listed in every evidence file that uses them)
+// a successful Stat returns file information
+//@ extern os.(*File).Stat
+//@   ensures[S] result1 == nil ==> result0 != nil
+// mmap(2): on success the mapping has the requested length
+//@ extern syscall.Mmap
+//@   ensures[S] err == nil ==> len(data) == length && cap(data) == length
 //@ extern encoding/base64.(*Encoding).DecodedLen
 //@   ensures[S] result >= 0
 //@ extern encoding/base64.(*Encoding).Decode
@@ -496,6 +512,10 @@ package parse
 //@   ensures[S] result != nil && sameSlice(result.data, data)
 
 //@ pred mmapView(r) := clen(r) == len(r.data) && r.size == len(r.data) && forall(i, 0, len(r.data), content(r, i) == r.data[i])
+// the constructor maps exactly the file's size: the mapped slice is as long as the size Len() reports (the half of mmapView
+// that does not depend on the operating system's file contents)
+//@ func newBinaryReaderMmap
+//@   ensures[F,C19] @view-size: result1 == nil ==> result0 != nil && result0.size == len(result0.data)
 //@ func binaryReaderMmap.Len
 //@   requires[S] r != nil && r.size >= 0 && smallInt(r.size)
 //@   requires[F] mmapView(r)
